@@ -43,6 +43,7 @@ def run_tie(rng_tag, sources, timeout_per_job=4.0):
         rec["wtcov"] = "(wtcov 1)" in fr
         rec["e2e"] = "(e2e 1)" in fr
         rec["exh"] = "(exh 1)" in fr
+        rec["joincov"] = "(joincov 1)" in fr
         rec["kfree"] = "ok" if "(kfree ok)" in fr else "crash" if "(kfree crash)" in fr else "other"
         rec["ands"] = {c: (rec["rust"][c] or "").count("(a ") for c in ("dedup", "nodedup")}
         m = ml.get(rec["mid"], "(no-result)")
@@ -113,6 +114,7 @@ def tie_pass(ck, sources, max_programs=150, tag="tie"):
         "end_to_end certified && within_gate_bound (EndToEnd.end_to_end: typed program -> evaluated circuit = Sem.v, only boolean premises)": sum(1 for r in recs if r.get("e2e")),
         "exh_fns (every match / let / for pattern list passes the real exhaustiveness algorithm: Sem.v never stuck on 'no arm matches', proved)": sum(1 for r in recs if r.get("exh")),
         "end_to_end EXACT: certified_exh && within_gate_bound (Final.end_to_end_exact: circuit output = value or panic of Sem.v, nothing else)": sum(1 for r in recs if r.get("e2e") and r.get("exh")),
+        "join_covered (for-join program of the corpus shape: TSem = Sem.v proved under sorted keys)": sum(1 for r in recs if r.get("joincov")),
         "in_imperative_scalar_fragment (TSem = Sem.v proved)": imp,
         "in_data_movement_class (zero AND gates proved)": len(kfree),
         "safe_program_ok (TSem never crashes, declared output size: proved)": sum(1 for r in recs if r.get("safe")),
